@@ -71,3 +71,21 @@ Example C04_nonvacuous :
                   (chunks 2 [1; 2; 3; 4; 5]) [])
   = [(7%Z, [1; 2]); (7%Z, [3; 4]); (7%Z, [5])].
 Proof. repeat split; vm_compute; reflexivity. Qed.
+
+(* B > N, any amount beyond: a group size at or beyond the number of samples makes the N samples the
+   single partial group, and the model's `learn` returns the same for every two such batch sizes
+   (usize::MAX, "full batch", included: the driver represents such a request by N + 1). *)
+Theorem C04_group_size_beyond_data :
+  forall (A : Type) (B : nat) (l : list A),
+    0 < B -> length l <= B -> chunks B l = match l with [] => [] | _ => [l] end.
+Proof. exact chunks_whole. Qed.
+Print Assumptions C04_group_size_beyond_data.
+
+Theorem C04_learn_batch_beyond_data :
+  forall (N : Num) (pm : pmap_t) (n : network N) (inputs targets : list (tensor N))
+         (validation : option (list (tensor N) * list (tensor N) * Z)) (b1 b2 : nat) (epochs : Z),
+    0 < b1 -> 0 < b2 ->
+    length inputs <= b1 -> length inputs <= b2 -> length targets <= b1 -> length targets <= b2 ->
+    learn pm n inputs targets validation b1 epochs = learn pm n inputs targets validation b2 epochs.
+Proof. exact learn_batch_beyond. Qed.
+Print Assumptions C04_learn_batch_beyond_data.
